@@ -450,8 +450,24 @@ def c09(ctx):
         igs = ("g", "r") if rdf11 else ("g",)
         for ig in igs:
             base_end, base_evs, _ = fam_parse.impl_flat(ig, data)
+            def after_preamble(n):
+                f = io.BufferedReader(io.BytesIO(b"\x00" * n + data))
+                f.read(n)
+                return f
+
+            def multi_gzip(k):
+                return gzip.open(io.BytesIO(gzip.compress(data[:k]) + gzip.compress(data[k:])), "rb")
+
             srcs = [("BufferedReader", lambda: io.BufferedReader(io.BytesIO(data))),
-                    ("gzip", lambda: gzip.open(io.BytesIO(gzip.compress(data)), "rb"))]
+                    ("BufferedReader(buffer_size=1)", lambda: io.BufferedReader(io.BytesIO(data), buffer_size=1)),
+                    ("BufferedReader(buffer_size=2)", lambda: io.BufferedReader(io.BytesIO(data), buffer_size=2)),
+                    ("BufferedReader(buffer_size=3)", lambda: io.BufferedReader(io.BytesIO(data), buffer_size=3)),
+                    ("BufferedReader after 8190-byte preamble", lambda: after_preamble(8190)),
+                    ("BufferedReader after 8191-byte preamble", lambda: after_preamble(8191)),
+                    ("gzip", lambda: gzip.open(io.BytesIO(gzip.compress(data)), "rb")),
+                    ("gzip, first member 1 byte", lambda: multi_gzip(1)),
+                    ("gzip, first member 2 bytes", lambda: multi_gzip(2)),
+                    ("BufferedReader over gzip", lambda: io.BufferedReader(gzip.open(io.BytesIO(gzip.compress(data)), "rb"), buffer_size=2))]
             for name, mk in srcs:
                 ctx.report.evaluations += 1
                 e, evs, _ = fam_parse.impl_flat(ig, data, src=mk())
